@@ -35,7 +35,7 @@ fn ows(r: &mut Rng) -> &'static str {
     }
 }
 
-fn name(r: &mut Rng) -> String {
+pub fn name(r: &mut Rng) -> String {
     match r.below(14) {
         0 => "[\"a b\"]".into(),
         1 => "['x-y']".into(),
@@ -49,7 +49,7 @@ fn name(r: &mut Rng) -> String {
     }
 }
 
-fn quoted(r: &mut Rng) -> String {
+pub fn quoted(r: &mut Rng) -> String {
     let body = *r.pick(&[
         "a", "x y", "", "*", "* - *", "k=*", "[*] * \"*\"", "it's", "say \"hi\"", "back\\slash", "tab\there", "nl\nx", "d\\d+", "100%",
         ",", " ", "a|b", "(x)", "é", "v=* w=*", "\\0", "\\q",
@@ -78,7 +78,7 @@ fn quoted(r: &mut Rng) -> String {
     s
 }
 
-fn duration(r: &mut Rng) -> String {
+pub fn duration(r: &mut Rng) -> String {
     let units = ["ns", "us", "ms", "s", "m", "h", "d", "w"];
     let n = 1 + r.below(3);
     let mut s = String::new();
@@ -91,7 +91,7 @@ fn duration(r: &mut Rng) -> String {
     s
 }
 
-fn column(r: &mut Rng) -> String {
+pub fn column(r: &mut Rng) -> String {
     let mut s = name(r);
     let n = match r.below(6) {
         0 => 1,
@@ -112,7 +112,7 @@ fn column(r: &mut Rng) -> String {
     s
 }
 
-fn literal(r: &mut Rng) -> String {
+pub fn literal(r: &mut Rng) -> String {
     match r.below(12) {
         0 | 1 => quoted(r),
         2 => duration(r),
@@ -126,7 +126,7 @@ fn literal(r: &mut Rng) -> String {
     }
 }
 
-fn expr(r: &mut Rng, depth: usize) -> String {
+pub fn expr(r: &mut Rng, depth: usize) -> String {
     if depth == 0 || r.chance(35) {
         return if r.chance(60) { column(r) } else { literal(r) };
     }
@@ -172,7 +172,7 @@ fn filter_atom(r: &mut Rng) -> String {
     }
 }
 
-fn filter(r: &mut Rng, depth: usize) -> String {
+pub fn filter(r: &mut Rng, depth: usize) -> String {
     if depth == 0 || r.chance(45) {
         return filter_atom(r);
     }
@@ -295,7 +295,7 @@ fn sort_op(r: &mut Rng) -> String {
     s
 }
 
-fn operator(r: &mut Rng) -> String {
+pub fn operator(r: &mut Rng) -> String {
     match r.below(34) {
         0 | 1 | 2 => parse_op(r),
         3 => "json".into(),
@@ -354,7 +354,7 @@ pub fn valid_query(r: &mut Rng) -> String {
 
 /* ---------- mutations ---------- */
 
-fn tokenize(q: &str) -> Vec<String> {
+pub fn tokenize(q: &str) -> Vec<String> {
     let mut out: Vec<String> = vec![];
     let mut cur = String::new();
     let mut kind = 0; // 1 word, 2 space
@@ -392,7 +392,7 @@ const TOKEN_POOL: &[&str] = &[
     "9223372036854775808", "-9223372036854775808ms", "apache", "nginx", "1e", "inf", "}", "{", "$", "#", "@", "%", "^", ":", ";", "=", "~", "`", "?",
 ];
 
-fn mutate(r: &mut Rng, q: &str) -> String {
+pub fn mutate(r: &mut Rng, q: &str) -> String {
     let mut toks = tokenize(q);
     let k = 1 + r.below(2);
     for _ in 0..k {
@@ -437,7 +437,7 @@ fn mutate(r: &mut Rng, q: &str) -> String {
 }
 
 /// random concatenation of small pieces: exercises the recovery combinators after the first report
-fn soup(r: &mut Rng) -> String {
+pub fn soup(r: &mut Rng) -> String {
     let n = 2 + r.below(14);
     let mut s = String::new();
     for _ in 0..n {
@@ -456,7 +456,7 @@ const NON_ASCII: &[&str] = &[
     "\u{3000}", "K", "ñ]", "[ñ",
 ];
 
-fn insert_non_ascii(r: &mut Rng, q: &str) -> String {
+pub fn insert_non_ascii(r: &mut Rng, q: &str) -> String {
     let mut chars: Vec<String> = q.chars().map(|c| c.to_string()).collect();
     let k = 1 + r.below(2);
     for _ in 0..k {
@@ -597,7 +597,7 @@ pub const WITNESSES: &[&str] = &[
 
 /* ---------- the check ---------- */
 
-fn clip(s: String) -> String {
+pub fn clip(s: String) -> String {
     if s.len() <= 200 {
         return s;
     }
@@ -608,15 +608,83 @@ fn clip(s: String) -> String {
     s[..n].to_string()
 }
 
-fn one(ctx: &mut Ctx, family: &str, q: &str) {
+/// outcome of the shared F-level comparison (model driver `PARSE` vs `ag::lang::query`)
+pub struct Cmp {
+    /// "pass" | "skip" | "fdis"
+    pub verdict: &'static str,
+    /// ACCEPT <tokens> | REJECT | PANIC <message>
+    pub imp_ans: String,
+    pub model: String,
+    /// the implementation's AST when it accepted
+    pub ast: Option<ag::lang::Query>,
+    pub diags: Vec<(String, Vec<(usize, usize)>)>,
+}
+
+pub fn panic_kind(a: &str) -> &'static str {
+    if a.contains("char boundary") || a.contains("char-boundary") {
+        "slice"
+    } else if a.contains("TimeDelta") {
+        "chrono"
+    } else {
+        "other"
+    }
+}
+
+/// the shared F-level core: parse `q` on both sides and compare
+pub fn compare(ctx: &mut Ctx, q: &str) -> Cmp {
+    let mut ast = None;
+    let mut diags = vec![];
     let imp_ans = match imp::parse(q) {
-        Ok((Some(ast), _)) => format!("ACCEPT {}", enc::query(&ast)),
-        Ok((None, _)) => "REJECT".to_string(),
+        Ok((Some(a), d)) => {
+            let s = format!("ACCEPT {}", enc::query(&a));
+            ast = Some(a);
+            diags = d;
+            s
+        }
+        Ok((None, d)) => {
+            diags = d;
+            "REJECT".to_string()
+        }
         Err(msg) => format!("PANIC {}", msg),
     };
     let model = ctx.drv.ask(&format!("PARSE\t{}", enc::hex(q)));
     let class = |a: &str| a.split(' ').next().unwrap_or("").to_string();
     let (ci, cm) = (class(&imp_ans), class(&model));
+    let verdict = if cm == "SKIP" {
+        "skip"
+    } else if ci == "PANIC" {
+        // panics: same kind (byte-offset slice vs chrono range), the message text itself is not compared
+        if cm == "PANIC" && panic_kind(&imp_ans) == panic_kind(&model) && panic_kind(&model) != "other" {
+            "pass"
+        } else {
+            "fdis"
+        }
+    } else if imp_ans == model {
+        "pass"
+    } else {
+        "fdis"
+    };
+    Cmp { verdict, imp_ans, model, ast, diags }
+}
+
+/// report the F-level comparison of one string as a case of `family`
+pub fn report(ctx: &mut Ctx, family: &str, q: &str, c: &Cmp) {
+    let ci = c.imp_ans.split(' ').next().unwrap_or("").to_string();
+    match c.verdict {
+        "skip" => ctx.case(family, "", "skip", serde_json::json!({"why": c.model[4..].trim(), "query": q, "impl": ci})),
+        "pass" => {
+            if std::env::var("PARSE_ECHO").is_ok() {
+                imp::emit(&serde_json::json!({"k": "echo", "query": q, "impl": c.imp_ans, "model": c.model}).to_string());
+            }
+            ctx.case(family, q, "pass", serde_json::json!({"query": q, "outcome": ci, "model": if ci == "PANIC" { c.model.clone() } else { String::new() }}));
+        }
+        _ => ctx.case(family, q, "fdis", serde_json::json!({"query": q, "query_hex": enc::hex(q), "impl": c.imp_ans, "model": c.model})),
+    }
+}
+
+fn one(ctx: &mut Ctx, family: &str, q: &str) {
+    let c = compare(ctx, q);
+    let ci = c.imp_ans.split(' ').next().unwrap_or("");
     if ci == "ACCEPT" {
         ctx.count("accepted");
     } else if ci == "REJECT" {
@@ -624,29 +692,28 @@ fn one(ctx: &mut Ctx, family: &str, q: &str) {
     } else {
         ctx.count("panicked");
     }
-    if cm == "SKIP" {
-        ctx.case(family, "", "skip", serde_json::json!({"why": model[4..].trim(), "query": q, "impl": ci}));
-        return;
-    }
-    // panics: same kind (byte-offset slice vs chrono range), the message text itself is not compared
-    let kind = |a: &str| {
-        if a.contains("char boundary") || a.contains("char-boundary") {
-            "slice"
-        } else if a.contains("TimeDelta") {
-            "chrono"
-        } else {
-            "other"
+    report(ctx, family, q, &c);
+}
+
+/// one generated string: (family, text) with the PARSE distribution
+pub fn gen_string(r: &mut Rng) -> (&'static str, String) {
+    let base = if r.chance(30) {
+        let cfg = gen::QueryCfg { allow_agg: true, allow_sort: true, max_stages: 4 };
+        gen::json_pipeline(r, &cfg)
+    } else {
+        valid_query(r)
+    };
+    let (family, q) = match r.below(100) {
+        0..=41 => ("valid", base),
+        42..=73 => ("mutated", mutate(r, &base)),
+        74..=85 => ("non-ascii", insert_non_ascii(r, &base)),
+        86..=92 => ("soup", soup(r)),
+        _ => {
+            let m = mutate(r, &base);
+            ("mutated+non-ascii", insert_non_ascii(r, &m))
         }
     };
-    let agree = if ci == "PANIC" { cm == "PANIC" && kind(&imp_ans) == kind(&model) && kind(&model) != "other" } else { imp_ans == model };
-    if agree {
-        if std::env::var("PARSE_ECHO").is_ok() {
-            imp::emit(&serde_json::json!({"k": "echo", "query": q, "impl": imp_ans, "model": model}).to_string());
-        }
-        ctx.case(family, q, "pass", serde_json::json!({"query": q, "outcome": ci, "model": if ci == "PANIC" { model.clone() } else { String::new() }}));
-    } else {
-        ctx.case(family, q, "fdis", serde_json::json!({"query": q, "query_hex": enc::hex(q), "impl": imp_ans, "model": model}));
-    }
+    (family, clip(q))
 }
 
 pub fn check(ctx: &mut Ctx) {
@@ -669,23 +736,7 @@ pub fn check(ctx: &mut Ctx) {
     let n = ctx.budget(6000, 400000);
     for _ in 0..n {
         let mut r = ctx.rng.fork();
-        let base = if r.chance(30) {
-            let cfg = gen::QueryCfg { allow_agg: true, allow_sort: true, max_stages: 4 };
-            gen::json_pipeline(&mut r, &cfg)
-        } else {
-            valid_query(&mut r)
-        };
-        let (family, q) = match r.below(100) {
-            0..=41 => ("valid", base),
-            42..=73 => ("mutated", mutate(&mut r, &base)),
-            74..=85 => ("non-ascii", insert_non_ascii(&mut r, &base)),
-            86..=92 => ("soup", soup(&mut r)),
-            _ => {
-                let m = mutate(&mut r, &base);
-                ("mutated+non-ascii", insert_non_ascii(&mut r, &m))
-            }
-        };
-        let q = clip(q);
+        let (family, q) = gen_string(&mut r);
         one(ctx, family, &q);
     }
     // thorough: every single-token deletion and duplication of 300 seed queries
